@@ -724,10 +724,83 @@ fn from_slice_grid() {
     out::eval(n);
 }
 
+/// Atomic accesses at REGION and GUEST-MEMORY level on regions whose length is not a multiple of
+/// the access width: the reference handed out internally must fit inside the region, so an
+/// aligned access whose first byte is mapped but whose last byte is not must be refused, and the
+/// bytes of the mapping's tail page beyond the region must stay untouched.
+fn region_atomic_grid() {
+    use std::sync::atomic::Ordering;
+    use vm_memory::{Bytes, GuestAddress, GuestMemory, GuestMemoryMmap, GuestMemoryRegion, GuestRegionMmap, MemoryRegionAddress};
+    let sizes: &[usize] = if cfg!(miri) { &[1, 3, 6, 9, 15] } else { &[1, 2, 3, 5, 6, 7, 9, 12, 15, 17, 4090, 4093, 4094, 4095, 4097, 4098, 4102, 8190] };
+    for &len in sizes {
+        let reg = GuestRegionMmap::<()>::from_range(GuestAddress(0x4000), len, None).expect("region");
+        let host = reg.as_ptr() as usize;
+        let tail_end = if cfg!(miri) { len } else { len.div_ceil(4096) * 4096 };
+        let gm_regs = vec![
+            GuestRegionMmap::<()>::from_range(GuestAddress(0x10000), len, None).unwrap(),
+            GuestRegionMmap::<()>::from_range(GuestAddress(0x10000 + len as u64), 16, None).unwrap(),
+        ];
+        let gm = GuestMemoryMmap::from_regions(gm_regs).unwrap();
+        macro_rules! at {
+            ($T:ty, $tn:expr) => {
+                let sz = size_of::<$T>();
+                for off in len.saturating_sub(2 * sz + 1)..=len + 1 {
+                    let fits = off.checked_add(sz).map_or(false, |e| e <= len);
+                    let aligned = (host + off) % sz == 0;
+                    let want_ok = fits && aligned;
+                    let val: $T = (0x5152535455565758u64 as $T) ^ (off as $T);
+                    let r1 = guarded(|| reg.store::<$T>(val, MemoryRegionAddress(off as u64), Ordering::SeqCst));
+                    let r2 = guarded(|| reg.load::<$T>(MemoryRegionAddress(off as u64), Ordering::SeqCst));
+                    match (&r1, &r2) {
+                        (Ok(a), Ok(b)) => {
+                            if a.is_ok() != want_ok || b.is_ok() != want_ok || (want_ok && b.as_ref().ok() != Some(&val)) {
+                                v(&format!("region-atomic/{}/{}", $tn, if want_ok { "fitting-aligned-access-refused-or-wrong" } else if !fits { "accepted-nonfitting" } else { "accepted-misaligned" }),
+                                  jobj! {"region_len" => len, "off" => off, "store_ok" => a.is_ok(), "load_ok" => b.is_ok()});
+                            }
+                        }
+                        _ => v(&format!("region-atomic/{}/panic", $tn), jobj! {"region_len" => len, "off" => off}),
+                    }
+                    // nothing beyond the region may have been written
+                    for k in len..tail_end {
+                        // SAFETY: inside the (page granular) mapping of the region.
+                        if unsafe { ((host + k) as *const u8).read_volatile() } != 0 {
+                            v(&format!("region-atomic/{}/wrote-beyond-region", $tn), jobj! {"region_len" => len, "off" => off, "dirty_tail_byte" => k});
+                            unsafe { ((host + k) as *mut u8).write_volatile(0) };
+                            break;
+                        }
+                    }
+                    // guest level: an access that would cross into the adjacent next region is refused too
+                    let ghost = gm.iter().next().unwrap().as_ptr() as usize;
+                    let gwant = fits && (ghost + off) % sz == 0;
+                    let g1 = guarded(|| gm.store::<$T>(val, GuestAddress(0x10000 + off as u64), Ordering::SeqCst));
+                    let in_first = off < len;
+                    if let Ok(g) = &g1 {
+                        if in_first && g.is_ok() != gwant {
+                            v(&format!("guest-atomic/{}/{}", $tn, if gwant { "fitting-aligned-access-refused" } else { "accepted-nonfitting-or-misaligned" }), jobj! {"region_len" => len, "off" => off, "store_ok" => g.is_ok()});
+                        }
+                    } else {
+                        v(&format!("guest-atomic/{}/panic", $tn), jobj! {"region_len" => len, "off" => off});
+                    }
+                    out::key(&format!("region-atomic|{}|len%{}={}|{}|{}", $tn, sz, len % sz, if fits { "fits" } else if off < len { "straddles-end" } else { "beyond" }, if aligned { "aligned" } else { "misaligned" }), true);
+                    out::eval(3);
+                }
+            };
+        }
+        at!(u8, "u8");
+        at!(u16, "u16");
+        at!(u32, "u32");
+        at!(u64, "u64");
+        at!(i32, "i32");
+        at!(usize, "usize");
+    }
+    out::count("region_atomic_grid_sizes", sizes.len() as i128);
+}
+
 pub fn run(args: &Args) {
     let (si, _) = args.shard();
     if si == 0 {
         from_slice_grid();
+        region_atomic_grid();
     }
     for case in args.cases(5000) {
         run_case(case, args);
